@@ -677,6 +677,18 @@ class SymNode(metaclass=NodeMeta):
     def clear_annotations(self):
         return self._with_annotations(())
 
+    def has_annotation_type(self, t):
+        return any(isinstance(a, t) for a in self._annotations())
+
+    def get_annotations_by_type(self, t):
+        return tuple(a for a in self._annotations() if isinstance(a, t))
+
+    def get_annotation(self, t):
+        for a in self._annotations():
+            if isinstance(a, t):
+                return a
+        return None
+
 
 class SymBoolN(SymNode):
     def size(self):
@@ -1146,6 +1158,10 @@ def node_constructor_contract(cls, op, args, length=None, annotations=(), variab
     is not symbolic] with the reference meaning; it carries `annotations` plus - unless
     skip_child_annotations - the relocatable annotations of its children; ghost `child_unelim` records
     the uneliminatable annotations reachable below it."""
+    if op == "BVV":
+        return bvv(args[0], args[1])
+    if op == "BoolV":
+        return _coerce(None, args[0])
     like = None
     kids = [x for x in args if isinstance(x, SymNode)]
     if issubclass(cls, SymBoolN):
